@@ -40,6 +40,19 @@ type linkCase struct {
 	Victim int    `json:"victim"`
 	// Knocks: how many handshakes the client side attempts in a row (from fresh sockets) while it keeps being refused
 	Knocks int `json:"knocks,omitempty"`
+	// Serial > 0: every honest certificate of the case carries this x509 serial number (a certificate's serial is chosen
+	// by whoever builds it), and before the judged handshake the third identity, presenting a certificate with the same
+	// serial, completes a handshake with the server's identity in the same process
+	Serial int `json:"serial,omitempty"`
+}
+
+// identWithSerial builds the TLS identity of key k; serial > 0 fixes the certificate's serial number.
+func identWithSerial(k, serial int) (*p2ptls.Identity, error) {
+	if serial <= 0 {
+		return p2ptls.NewIdentity(gen.Key(k))
+	}
+	tmpl := &x509.Certificate{SerialNumber: big.NewInt(int64(serial)), NotBefore: time.Now().Add(-time.Hour), NotAfter: time.Now().Add(24 * time.Hour), Subject: pkix.Name{SerialNumber: fmt.Sprint(serial)}}
+	return p2ptls.NewIdentity(gen.Key(k), p2ptls.WithCertTemplate(tmpl))
 }
 
 func genLink(t *rapid.T) linkCase {
@@ -52,6 +65,9 @@ func genLink(t *rapid.T) linkCase {
 	c.Server = (c.Client + 1 + rapid.IntRange(0, 1).Draw(t, "ds")) % 3
 	c.Victim = 3 + rapid.IntRange(0, 1).Draw(t, "victim")
 	c.Knocks = rapid.SampledFrom([]int{1, 1, 2, 3}).Draw(t, "knocks")
+	if rapid.IntRange(0, 3).Draw(t, "hasserial") == 0 {
+		c.Serial = rapid.IntRange(1, 1000000).Draw(t, "serial")
+	}
 	if c.ServerExpect == "wrong" && c.Forge == "" {
 		// the interesting repeated knock: a well-formed client that is simply not the required peer
 		c.Knocks = rapid.SampledFrom([]int{1, 2, 2, 3}).Draw(t, "knocks2")
@@ -112,17 +128,57 @@ func checkLink(c linkCase) (o vstat.Outcome) {
 	pcS, pcC := nw.listen("server"), nw.listen("client")
 	defer pcS.Close()
 	defer pcC.Close()
-	identS, err := p2ptls.NewIdentity(gen.Key(c.Server))
+	identS, err := identWithSerial(c.Server, c.Serial)
 	if err != nil {
 		o.Discard = true
 		return
 	}
-	identC, err := p2ptls.NewIdentity(gen.Key(c.Client))
+	identC, err := identWithSerial(c.Client, c.Serial)
 	if err != nil {
 		o.Discard = true
 		return
 	}
 	third := 3 - c.Client - c.Server // the remaining key among 0..2
+	if c.Serial > 0 {
+		// an earlier, unrelated and honest handshake in the same process: the third identity (same certificate serial)
+		// dials the server's identity on sockets of their own
+		o.Classes = append(o.Classes, "shared-certificate-serial")
+		identT, terr := identWithSerial(third, c.Serial)
+		if terr != nil {
+			o.Discard = true
+			return
+		}
+		pcWS, pcWC := nw.listen("warm-server"), nw.listen("warm-client")
+		wctx, wcancel := context.WithTimeout(context.Background(), 4*time.Second)
+		wch := make(chan *quic.Conn, 1)
+		go func() {
+			s, _ := transport_quic.ListenSession(wctx, quietLog, &transport_quic.Opts{}, pcWS, identS, "")
+			wch <- s
+		}()
+		time.Sleep(5 * time.Millisecond)
+		ws, _, werr := transport_quic.DialSession(wctx, quietLog, &transport_quic.Opts{}, pcWC, identT, memAddr("warm-server"), gen.PeerID(c.Server))
+		var wss *quic.Conn
+		select {
+		case wss = <-wch:
+		case <-wctx.Done():
+		}
+		if werr == nil && wss != nil {
+			if id, _, derr := transport_quic.DetermineSessionIdentity(wss); derr != nil || id != gen.PeerID(third) {
+				wcancel()
+				o.V = vstat.Viol("server-wrong-remote-id", "warm-up handshake: server session identity %s (err %v), client is %s", id, derr, gen.PeerID(third))
+				return
+			}
+		}
+		if ws != nil {
+			_ = ws.CloseWithError(0, "done")
+		}
+		if wss != nil {
+			_ = wss.CloseWithError(0, "done")
+		}
+		wcancel()
+		_ = pcWS.Close()
+		_ = pcWC.Close()
+	}
 	sExp := expectID(c.ServerExpect, c.Client, third)
 	cExp := expectID(c.ClientExpect, c.Server, third)
 	ctx, cancel := context.WithTimeout(context.Background(), 4*time.Second)
